@@ -57,7 +57,23 @@ def vc_part(rep, prop, timeout_ms=60000, concrete_hooks=None, only=None):
       rep.error('%s: %s' % (r['function'], r['message']))
       continue
     if r['status'] == 'undecided' and not r['failed']:
-      rep.undecide(r['function'], r['message'])
+      # the function left the supported subset (no obligations): only the run-time evaluation of its
+      # contract on the real code can still decide something
+      hook = (concrete_hooks if concrete_hooks is not None else {}).get(r['function'])
+      witness = None
+      if hook is not None:
+        try:
+          witness = hook(dict(name='contract', detail=r['message']))
+        except Exception:
+          witness = None
+      if witness is not None:
+        rep.add_finding(Finding(prop, 'vc:%s/contract' % r['function'],
+                                'the contract of %s could not be turned into obligations (%s) and its run-time '
+                                'evaluation on the real code fails' % (r['function'], r['message'][:200]),
+                                replay=dict(obligation=r['function'] + '/contract', clause=r['message'], failing_input=witness),
+                                concrete=True))
+      else:
+        rep.undecide(r['function'], r['message'])
       continue
     for f in r['failed']:
       oname = '%s/%s' % (r['function'], f['name'])
